@@ -3974,3 +3974,105 @@ func (p *Prog) filesUnderALogLock() []Ob {
 	}
 	return obs
 }
+
+// ---------------------------------------------------------------------------
+// R18e NOTHING-DELETED-MEANS-NOTHING-TO-DELETE (C12, C15): (*log).delete answers "nothing deleted"
+// (success, no messages) only where the rewrite found nothing to delete, where the segment is gone, or
+// on the lost-race edge recorded as K1; never because applying the rewrite "is not worth it".
+func (p *Prog) nothingDeletedMeansNothingToDelete() []Ob {
+	var obs []Ob
+	r := p.R
+	ea := p.ErrAtomsCached()
+	var delField *types.Var
+	rs := structOf(r.RewriteSegment)
+	for i := 0; i < rs.NumFields(); i++ {
+		if sl, ok := rs.Field(i).Type().Underlying().(*types.Slice); ok && namedOf(sl.Elem()) == r.Message {
+			delField = rs.Field(i)
+		}
+	}
+	for _, fn := range p.Funcs {
+		if !srcFunc(fn) || recvNamed(fn) != r.Impl {
+			continue
+		}
+		// the function that asks for the rewrite
+		asks := false
+		for _, b := range fn.Blocks {
+			for _, ins := range b.Instrs {
+				if c, ok := ins.(*ssa.Call); ok {
+					if g := c.Common().StaticCallee(); g != nil && g.Signature.Results().Len() == 2 && namedOf(derefPtr(g.Signature.Results().At(0).Type())) == r.RewriteSegment && recvNamed(g) == r.Segment {
+						asks = true
+					}
+				}
+			}
+		}
+		if !asks || delField == nil {
+			continue
+		}
+		ob := Ob{Rule: "R18", Inst: "e:nothing-deleted:" + funcLabel(fn), Props: []string{"C12", "C15"}, Pos: p.posStr(fn.Pos()), Func: funcLabel(fn), Nontrivial: true}
+		allowedEdge := func(b *ssa.BasicBlock) bool {
+			for _, hb := range fn.Blocks {
+				iff, ok := terminator(hb).(*ssa.If)
+				if !ok {
+					continue
+				}
+				// len(rs.DeletedMessages) == 0
+				if x, y, op, ok := relCond(iff.Cond); ok {
+					if lc, ok := x.(*ssa.Call); ok && isBuiltinCall(lc.Common(), "len") {
+						if f, _ := loadedField(canon(lc.Call.Args[0])); f == delField {
+							if k, isK := constInt(y); isK && k == 0 {
+								e := -1
+								switch op {
+								case token.EQL, token.LEQ:
+									e = 0
+								case token.NEQ, token.GTR:
+									e = 1
+								}
+								if e >= 0 && edgeDominates(hb, e, b) {
+									return true
+								}
+							}
+						}
+					}
+					// a reader looked up under the lock turned out nil: the segment is gone
+					for _, pair := range [][2]ssa.Value{{x, y}, {y, x}} {
+						if isNilConst(pair[1]) && namedOf(derefPtr(pair[0].Type())) == r.SegReader {
+							e := 0
+							if op == token.NEQ {
+								e = 1
+							}
+							if edgeDominates(hb, e, b) {
+								return true
+							}
+						}
+					}
+				}
+				// a module sentinel of the root package (the lost race, judged by R18d)
+				for _, t := range sentinelTests(iff.Cond) {
+					if strings.HasPrefix(t.atom, "G:"+pkgRoot+".") && edgeDominates(hb, t.edge, b) {
+						return true
+					}
+				}
+			}
+			return false
+		}
+		var bad []string
+		n := 0
+		for _, rt := range returnsOf(fn) {
+			if ea.isFailureReturn(fn, rt) || len(rt.Results) == 0 || !isNilConst(returnOperand(rt, 0)) {
+				continue
+			}
+			// `return nil, 0, rs.Remove()`: success only if the clean-up succeeds; still "nothing deleted"
+			n++
+			if !allowedEdge(rt.Block()) {
+				bad = append(bad, p.at(rt)+": 'nothing deleted' is answered although the rewrite may have found requested, live messages")
+			}
+		}
+		if len(bad) > 0 {
+			ob.Status, ob.Msg, ob.Path = Violated, "a delete that found messages to delete can drop its rewrite and report success with nothing deleted: DeleteMulti and every trim helper take an empty round for 'done'", bad
+		} else {
+			ob.Status, ob.Msg = Discharged, fmt.Sprintf("%d 'nothing deleted' return(s), each where the rewrite found nothing, the segment is gone, or the recorded lost-race edge", n)
+		}
+		obs = append(obs, ob)
+	}
+	return obs
+}
